@@ -58,7 +58,7 @@ def membership_tests(f):
             if len(elem) != 1 or len(other) != 1:
                 cands = None
                 break
-            cands.append((show(other[0], 200), show(elem[0], 200)))
+            cands.append((show(other[0], 200), show(elem[0], 200), other[0], elem[0]))
         if not cands:
             continue
         # tests of the flag
@@ -83,7 +83,7 @@ def membership_tests(f):
                 if all(rb in nl[h] for h in loops):
                     reset_ok = True
             out.append({'flag': ent['name'], 'flag_id': vid, 'test': bid, 'accept': acc, 'reject': rej, 'reset_ok': reset_ok,
-                        'candidate': cands[0][0], 'list': cands[0][1], 'line': t.get('ln'), 'loops': loops})
+                        'candidate': cands[0][0], 'list': cands[0][1], 'candidate_tree': cands[0][2], 'list_tree': cands[0][3], 'line': t.get('ln'), 'loops': loops})
     return out
 
 
